@@ -50,6 +50,7 @@ static NDSize ndsize(const std::vector<std::string> &v) {
 
 static std::vector<double> dbls(const std::vector<std::string> &v, size_t from = 0) {
     std::vector<double> o;
+    o.reserve(v.size() > from ? v.size() - from : 0);      // capacity == size: a read past the end is a heap overflow ASan sees
     for (size_t i = from; i < v.size(); i++) o.push_back(dec_dbl(v[i]));
     return o;
 }
